@@ -173,6 +173,18 @@ def oracle_tf(case, ctx):
         f('identity on positions')
     if hash(S) != hash(T(s)) or S != T(s):
         f('equal transforms differ in ==/hash')
+    # poses are mutable and the library updates them in place (agent moves/turns): the laws must keep holding
+    W = T(s)
+    _ = -W, W * (-W)
+    W.position = P((t[0], t[1]))
+    W.orientation = objs.ori(u[2])
+    w = [t[0], t[1], u[2]]
+    if tr(W) != tuple(w) or W != T(w):
+        f('in-place update of a pose is not reflected')
+    if W * (-W) != I or (-W) * W != I or (-W) * (W * P(p)) != P(p):
+        f(f'inverse is stale after an in-place pose update: w*-w = {tr(W * (-W))}')
+    if yx(W * P(p)) != m_tf_apply(w, p):
+        f('action is stale after an in-place pose update')
     ident = lambda x: x[0] == 0 and x[1] == 0 and x[2] == 'F'  # noqa: E731
     nt = not (ident(s) or ident(t) or ident(u)) and s[2] != 'F' and t[2] != 'F'
     ctx.ev.case(case, nt=nt, classes=['s=' + s[2]])
@@ -271,6 +283,8 @@ def oracle_grid(case, ctx):
         if not isinstance(r, Grid):
             f('result is not a Grid')
         got = objs.canon_grid(r)
+        if objs.canon_grid(g) != rows:
+            f(f'{o}: rotation modified its operand')
         exp_shape = (h, w) if o in 'FB' else (w, h)
         if (r.shape.height, r.shape.width) != exp_shape or (len(got), len(got[0])) != exp_shape:
             f(f'{o}: shape {r.shape} != {exp_shape}')
@@ -294,6 +308,11 @@ def oracle_grid(case, ctx):
             f(f'{o}: rotation modified its operand')
         if objs.canon_grid(objs.ori(o) * g) != got:
             f(f'{o}: left and right multiplication differ')
+    g = objs.build_grid(rows)
+    first = {o: objs.canon_grid(g * objs.ori(o)) for o in ['B', 'L', 'F', 'R']}
+    second = {o: objs.canon_grid(g * objs.ori(o)) for o in ['R', 'B', 'L', 'F']}
+    if first != second or objs.canon_grid(g) != rows:
+        f('rotating the same grid repeatedly gives different answers / modifies it')
     ctx.ev.case(case, nt=(h != w and h * w > 1 and case['distinct'] and h * w <= len(DISTINCT)),
                 classes=['square' if h == w else 'nonsquare', 'distinct' if case['distinct'] and h * w <= len(DISTINCT) else 'repeats'])
 
